@@ -397,6 +397,8 @@ class Check:
         self.rule = ""
         self.exhaustive = None
         self.extra = {}
+        # replays of earlier runs of this check are stale
+        shutil.rmtree(REPLAYS / pid, ignore_errors=True)
 
     # -- model checking of a bounded model; failing = the DESIGN admits a bad state
     def add_model(self, name, res, verdict, expect="ok"):
